@@ -338,11 +338,12 @@ class SchedLock(object):
     code created).  acquire() tries the inner lock without blocking; on failure the thread is
     descheduled until somebody releases.  Records (tid, event, depth) into `log` if given."""
 
-    def __init__(self, sched_ref, inner, log=None, name='lock'):
+    def __init__(self, sched_ref, inner, log=None, name='lock', hook=None):
         self._sched_ref = sched_ref     # callable returning the current Scheduler (or None)
         self._inner = inner
         self._log = log
         self._name = name
+        self._hook = hook               # hook(tid, 'blk'|'acq'|'rel') for trace recording
         self.owner = None               # tid of the holder as seen by the proxy
         self.depth = 0
 
@@ -363,11 +364,15 @@ class SchedLock(object):
                 return False
             if self._log is not None:
                 self._log.append((tid, 'blocked', self.depth))
+            if self._hook is not None:
+                self._hook(tid, 'blk')
             s.block(tid, self)
         self.owner = tid
         self.depth += 1
         if self._log is not None:
             self._log.append((tid, 'acquire', self.depth))
+        if self._hook is not None:
+            self._hook(tid, 'acq')
         return True
 
     def release(self):
@@ -378,6 +383,8 @@ class SchedLock(object):
         self.depth -= 1
         if self._log is not None:
             self._log.append((s.me(), 'release', self.depth))
+        if self._hook is not None:
+            self._hook(s.me(), 'rel')
         if self.depth == 0:
             self.owner = None
             s.unblock_waiters(self)
